@@ -258,6 +258,59 @@ pub fn run(ctx: &mut Ctx) {
         ctx.sig("wire boundary");
         ctx.sig("wire random");
     }
+    // ---- the same conversion where the library puts serials on the wire:
+    // every PDU type that carries a serial must hold it big-endian at octets
+    // 8..12 and its accessor must give the serial back.
+    {
+        use rpki::rtr::payload::Timing;
+        use rpki::rtr::pdu::{EndOfData, EndOfDataV0, EndOfDataV1, SerialNotify, SerialQuery, SerialQueryPayload};
+        use rpki::rtr::state::State;
+        let mut rng = ctx.rng("pdu-wire");
+        let mut vals: Vec<u32> = BASES.to_vec();
+        vals.extend_from_slice(&[0x0000_00FF, 0xFF00_0000, 0x0102_0304, 0x8040_2010, 0x0100_0001]);
+        let random = ctx.stage_budget((200_000, 5_000_000), 50_000, 60, 0);
+        for _ in 0..random {
+            vals.push(rng.next_u32());
+        }
+        let timing = Timing { refresh: 3600, retry: 600, expire: 7200 };
+        for (i, &a) in vals.iter().enumerate() {
+            let session = (i as u16).wrapping_mul(257);
+            let state = State::from_parts(session, Serial::from(a));
+            let want = a.to_be_bytes();
+            let version = (i % 3) as u8;
+            let mut bad: Option<&'static str> = None;
+            let n = SerialNotify::new(version, state);
+            if n.as_ref()[8..12] != want {
+                bad = Some("serial-notify-bytes");
+            }
+            let q = SerialQuery::new(version, state);
+            if q.as_ref()[8..12] != want {
+                bad = Some("serial-query-bytes");
+            }
+            let qp = SerialQueryPayload::new(Serial::from(a));
+            if qp.serial() != Serial::from(a) || qp.as_ref()[..] != want {
+                bad = Some("serial-query-payload");
+            }
+            let e0 = EndOfDataV0::new(state);
+            if e0.as_ref()[8..12] != want || e0.serial() != Serial::from(a) {
+                bad = Some("end-of-data-v0");
+            }
+            let e1 = EndOfDataV1::new(version.max(1), state, timing);
+            if e1.as_ref()[8..12] != want || e1.serial() != Serial::from(a) {
+                bad = Some("end-of-data-v1");
+            }
+            let e = EndOfData::new(version, state, timing);
+            if e.state().serial() != Serial::from(a) || e.state().session() != session {
+                bad = Some("end-of-data-state");
+            }
+            evals += 6;
+            if let Some(what) = bad {
+                report(ctx, &format!("pdu-wire:{}", what), format!("serial {a:#x} is not carried big-endian / not read back by {what} (version {version})"), a, version as u32);
+            }
+        }
+        ctx.sig("pdu wire: serial notify / serial query / end of data v0,v1,v2 boundary");
+        ctx.sig("pdu wire: random serials");
+    }
     ctx.evals(evals);
     ctx.sample("comparison", || json!({"a": 0xFFFF_FFFEu32, "d": 3, "b": 1, "expected": "Less", "observed": format!("{:?}", Serial::from(0xFFFF_FFFE).partial_cmp(&Serial::from(1)))}));
     ctx.sample("undefined", || json!({"a": 1, "d": 0x8000_0000u32, "expected": "None", "observed": format!("{:?}", Serial::from(1).partial_cmp(&Serial::from(0x8000_0001)))}));
